@@ -309,3 +309,113 @@ def observe(spec, mask_seed, modes=('random',), wseed=0):
             r['export'] = 'EXC:%s:%s' % (type(ex).__name__, str(ex)[:200])
         ob['runs'].append(r)
     return ob
+
+
+# ============================================================================= corpus (minimized failures found on the unchanged tree)
+def _c2(src, cin, cout, dw=False, k=3):
+    return {'k': 'conv2d', 'src': src, 'cin': cin, 'cout': cout, 'ks': [k, k], 'dil': 1, 'stride': 1, 'groups': cin if dw else 1, 'bias': True, 'padding': 'same'}
+
+
+def _head(nodes, src, c, nout=2):
+    nodes.append({'k': 'gap2d', 'src': src})
+    nodes.append({'k': 'flatten', 'src': len(nodes) - 1, 'start': 1, 'form': 'fn'})
+    nodes.append({'k': 'linear', 'src': len(nodes) - 1, 'cin': c, 'cout': nout, 'bias': True})
+    return nodes
+
+
+def corpus():
+    I = {'k': 'in', 'shape': [3, 5, 5]}
+    out = []
+    # row 6: cat(x, excluded_conv(x)) feeding a searchable conv
+    n = [I, _c2(0, 3, 5), {'k': 'cat', 'src': [0, 1], 'dim': 1}, _c2(2, 8, 4)]
+    out.append(('const-collision', {'dim': 2, 'nodes': _head(n, 3, 4), 'exclude_names': [1]}))
+    # cat of two flattened tensors with different spatial sizes
+    n = [I, _c2(0, 3, 2), {'k': 'relu', 'src': 1}, {'k': 'flatten', 'src': 2, 'start': 1, 'form': 'fn'}, _c2(2, 2, 3), {'k': 'gap2d', 'src': 4},
+         {'k': 'flatten', 'src': 5, 'start': 1, 'form': 'fn'}, {'k': 'cat', 'src': [3, 6], 'dim': 1}, {'k': 'linear', 'src': 7, 'cin': 53, 'cout': 2, 'bias': True}]
+    out.append(('flatten-collision', {'dim': 2, 'nodes': n}))
+    # row 7: residual add with a cat operand
+    n = [I, _c2(0, 3, 2), _c2(0, 3, 3), {'k': 'cat', 'src': [1, 2], 'dim': 1}, _c2(0, 3, 5), {'k': 'add', 'src': [3, 4]}, _c2(5, 5, 3)]
+    out.append(('add-of-cat', {'dim': 2, 'nodes': _head(n, 6, 3)}))
+    # depthwise directly after a cat
+    n = [I, _c2(0, 3, 2), _c2(0, 3, 3), {'k': 'cat', 'src': [1, 2], 'dim': 1}, _c2(3, 5, 5, dw=True), _c2(4, 5, 3)]
+    out.append(('dw-after-cat', {'dim': 2, 'nodes': _head(n, 5, 3)}))
+    # the same tensor twice in a cat
+    n = [I, _c2(0, 3, 2), {'k': 'relu', 'src': 1}, _c2(2, 2, 3), {'k': 'cat', 'src': [3, 2, 2], 'dim': 1}, _c2(4, 7, 3)]
+    out.append(('dup-cat', {'dim': 2, 'nodes': _head(n, 5, 3)}))
+    # an excluded layer downstream of a searchable one
+    n = [I, _c2(0, 3, 4), {'k': 'relu', 'src': 1}, _c2(2, 4, 3), {'k': 'relu', 'src': 3}, _c2(4, 3, 3)]
+    out.append(('excluded-downstream', {'dim': 2, 'nodes': _head(n, 5, 3), 'exclude_names': [3]}))
+    # add of a searchable and an excluded layer
+    n = [I, _c2(0, 3, 4), {'k': 'relu', 'src': 1}, _c2(2, 4, 3), _c2(2, 4, 3), {'k': 'add', 'src': [3, 4]}, _c2(5, 3, 2)]
+    out.append(('excluded-in-add', {'dim': 2, 'nodes': _head(n, 6, 2), 'exclude_names': [4]}))
+    # squeeze of a trailing size-one axis of a 4-D tensor
+    n = [{'k': 'in', 'shape': [2, 5, 5]}, _c2(0, 2, 4), {'k': 'gapw', 'src': 1}, {'k': 'squeeze', 'src': 2, 'dim': 3, 'form': 'fn'},
+         {'k': 'conv1d', 'src': 3, 'cin': 4, 'cout': 3, 'ks': 1, 'dil': 1, 'stride': 1, 'groups': 1, 'bias': True},
+         {'k': 'flatten', 'src': 4, 'start': 1, 'form': 'fn'}, {'k': 'linear', 'src': 5, 'cin': 15, 'cout': 2, 'bias': True}]
+    out.append(('squeeze-spatial', {'dim': 2, 'nodes': n}))
+    for _, s in out:
+        s['out'] = [len(s['nodes']) - 1]
+    return out
+
+
+# ============================================================================= structural classes (violation keys)
+def through(spec, i, dw=True):
+    """walk back through single-input ops that keep the features (and depthwise layers)"""
+    nodes = spec['nodes']
+    while True:
+        nd = nodes[i]
+        if nd['k'] in CG.PROP or (dw and is_dw(nd)) or (nd['k'] == 'flatten' and nd.get('start', 1) != 1) or nd['k'] in ('squeeze', 'unsqueeze'):
+            i = nd['src']
+        else:
+            return i
+
+
+def classes_of(spec):
+    """structural features of an architecture that the unchanged tree is known to mishandle (most specific first)"""
+    nodes = spec['nodes']
+    sh = CG.shapes(spec)
+    out = []
+    iscat = lambda j: nodes[j]['k'] == 'cat' and nodes[j]['dim'] == 1
+    fixed_w = lambda j: nodes[j]['k'] == 'in' or (nodes[j]['k'] in LAYER and not is_dw(nodes[j]) and CG.excluded(spec, j)) or (nodes[j]['k'] in LAYER and not is_dw(nodes[j]) and not spec.get('autoconvert', True) and nodes[j].get('pit') is None)
+    for i, nd in enumerate(nodes):
+        if nd['k'] == 'squeeze':
+            rank = len(sh[nd['src']]) + 1
+            if rank == 4 and (nd['dim'] == 3):
+                out.append('squeeze-trailing-axis-of-4d')
+        if iscat(i) and len(set(nd['src'])) < len(nd['src']):
+            out.append('cat-repeats-a-tensor')
+    for i, nd in enumerate(nodes):
+        if nd['k'] in ('add', 'sub') or (nd['k'] == 'cat' and nd['dim'] == 2):
+            if any(iscat(through(spec, s)) for s in nd['src']):
+                out.append('add-with-cat-operand')
+        if is_dw(nd) and iscat(through(spec, nd['src'])):
+            out.append('depthwise-after-cat')
+
+    def leaves(c):
+        r = []
+        for s in nodes[c]['src']:
+            t = through(spec, s, dw=False)
+            if iscat(t):
+                r += leaves(t)
+            elif nodes[t]['k'] == 'flatten':
+                r.append(('F', t))
+            else:
+                t2 = through(spec, s)
+                if fixed_w(t2):
+                    r.append(('K', t2))
+        return r
+    for i, nd in enumerate(nodes):
+        if iscat(i):
+            lv = leaves(i)
+            if len(set(x for x in lv if x[0] == 'K')) >= 2:
+                out.append('cat-of-two-fixed-width-tensors')
+            if len(set(x for x in lv if x[0] == 'F')) >= 2:
+                out.append('cat-of-two-flattened-tensors')
+    # excluded / fixed modules tied to something searchable
+    if spec.get('exclude_names') or spec.get('exclude_types'):
+        out.append('excluded-layer-next-to-searchable')
+    seen = []
+    for c in out:
+        if c not in seen:
+            seen.append(c)
+    return seen
